@@ -116,6 +116,26 @@ def genStart (g : Nat) : Nat := if g % 2 = 0 then (g + 1) % 65536 else g
 /-- value stored after the record copy, from the in-flight value -/
 def genFinish (g : Nat) : Nat := let n := (g + 1) % 65536; if n = 0 then 2 else n
 
+/-- history of the generation field: `start` = first store of an update, `finish` = second store,
+    `crash` = the writer process dies (a restarted writer carries on from whatever is in the file) -/
+inductive GEv | start | finish | crash
+deriving Repr, BEq, DecidableEq, Inhabited
+
+structure GState where
+  g : Nat                  -- generation value in the segment
+  mid : Bool := false      -- an update is in flight (between the two stores)
+  stale : Bool := false    -- the last update was interrupted by a crash and none completed since
+  stores : Nat := 0        -- ghost: number of generation stores so far
+  finishes : Nat := 0      -- ghost: number of completed updates so far
+deriving Repr, BEq, DecidableEq, Inhabited
+
+def GState.step (s : GState) : GEv → GState
+  | .start => if s.mid then s else { s with g := genStart s.g, mid := true, stale := false, stores := s.stores + 1 }
+  | .finish => if s.mid then { s with g := genFinish s.g, mid := false, stale := false, stores := s.stores + 1, finishes := s.finishes + 1 } else s
+  | .crash => if s.mid then { s with mid := false, stale := true } else s
+
+def GState.run (g0 : Nat) (evs : List GEv) : GState := evs.foldl GState.step { g := g0 }
+
 /-! ### `--max-drift-rate` (C19) -/
 
 /-- `main`: ppm → ppb; `none` = refused at start-up -/
